@@ -1,6 +1,6 @@
 SPECIFICATION Spec
 CONSTANTS
-  N = 7
+  N = 5
   NLen <- cNLen
   G <- G1kCsum
   Inline = FALSE
